@@ -12,15 +12,19 @@ RULE = ('three streams. bin (55%): two conforming files (1-3 dims, <= 12 cells, 
         'operator + - * / // ** % < <= > >= == !=, operands drawn from small integers/quarters, zeros, +-inf, nan and (for + - *) '
         '+-1e308. mask (30%): every subset of {where (own shape / with dims= as tuple or list / mis-shaped), greater, greater_equal, '
         'less, less_equal, values, equal, invalid}, thresholds at and near data values (incl. 1e-6 / 1e-4 relative offsets for values=), '
-        'masked and unmasked int/float variables incl. inf/nan, coordinate variables with coords=False/True. eval (15%): assignment '
-        'expressions over the variables compared with direct numpy/numpy.ma evaluation (Python oracle only). F: Coq model vs library '
+        'masked and unmasked int/float variables incl. inf/nan, coordinate variables with coords=False/True. eval (15%): 1-3 assignment '
+        'statements with random expression trees (names, constants, unary minus, + - * /, depth <= 3) over plain / masked-typed int and '
+        'float arrays incl. zeros, inf, nan, re-assignment of existing variables, copyall True/False, optional coordinate variable: '
+        'evaluated in Coq (Model/EvalExpr.v) and by the Python oracle; other forms (np.sqrt, comparisons, **, %, //, masked_less) '
+        'Python oracle only. F: Coq model vs library '
         'cell by cell (exact); S: Coq spec and independent Python oracle. Non-trivial = a result cell differs from the left operand / a '
         'cell got masked / a variable was created.')
 TRUSTED = ['numpy elementwise arithmetic on the raw data (r) is an input to the model, computed by the harness with numpy itself; '
            'the model decides mask placement',
            'numpy.ma.masked_greater/less/equal/values/invalid/where semantics are modelled (isclose rtol 1e-5 atol 1e-8 for floats)',
-           'eval(): not in the Coq model; oracle = exec of the same statements on numpy arrays']
-ASSUMPTIONS = ['operands conform (same shape per variable); +-1e308 operands only with + - * (numpy.ma\'s divide domain |a|*tiny >= |b| '
+           'eval(): numpy / numpy.ma array arithmetic for + - * / and unary minus is modelled (IEEE extended reals with exact finite '
+           'part, compared within 2^-40 relative); other expression forms: oracle = exec of the same statements on numpy arrays']
+ASSUMPTIONS = ['eval: divisors are sums/differences of untouched file variables and constants (the exact model has no signed zero)', 'operands conform (same shape per variable); +-1e308 operands only with + - * (numpy.ma\'s divide domain |a|*tiny >= |b| '
                'is modelled as b == 0)', 'integer ** negative integer raises inside numpy for both library and oracle: such cases only '
                'check that the library raises as numpy does']
 OPS = ['+', '-', '*', '/', '//', '**', '%', '<', '<=', '>', '>=', '==', '!=']
@@ -181,15 +185,80 @@ EXPRS = ['C = A + B', 'C = A * 2 - B', 'C = A / B', 'C = np.sqrt(A)', 'C = A > B
          'C = np.ma.masked_less(A, 0) + B', 'C = A ** 2 % 3', 'C = -A // 2']
 
 
+CONSTS = ['1', '2', '4', '1/2', '0', '-1', '3']
+EOPS = ['+', '-', '*', '/']
+
+
+def _gen_divisor(rng, clean):
+    """divisors are built from untouched file variables and constants with + and - only: their zeros are
+    +0.0 (the exact model has no signed zero; -0.0 only arises from products and negation)"""
+    if not clean or rng.random() < 0.2:
+        return ['c', rng.choice(CONSTS)]
+    a = ['v', rng.choice(clean)]
+    r = rng.random()
+    if r < 0.5:
+        return a
+    b = ['v', rng.choice(clean)] if rng.random() < 0.6 else ['c', rng.choice(CONSTS)]
+    return [rng.choice(['+', '-']), a, b]
+
+
+def _gen_ast(rng, names, depth, clean=()):
+    """expression tree that contains at least one variable; constants only beside a variable subtree"""
+    if depth == 0 or rng.random() < 0.25:
+        return ['v', rng.choice(names)]
+    r = rng.random()
+    if r < 0.12:
+        return ['neg', _gen_ast(rng, names, depth - 1, clean)]
+    op = rng.choice(EOPS)
+    a = _gen_ast(rng, names, depth - 1, clean)
+    if op == '/':
+        return [op, a, _gen_divisor(rng, list(clean))]
+    b = ['c', rng.choice(CONSTS)] if rng.random() < 0.3 else _gen_ast(rng, names, depth - 1, clean)
+    if rng.random() < 0.5:
+        a, b = b, a
+    return [op, a, b]
+
+
+def _ast_str(t):
+    if t[0] == 'v':
+        return t[1]
+    if t[0] == 'c':
+        fr = Fraction(t[1])
+        return '(%s)' % (repr(float(fr)) if fr.denominator != 1 else str(fr.numerator))
+    if t[0] == 'neg':
+        return '(-%s)' % _ast_str(t[1])
+    return '(%s %s %s)' % (_ast_str(t[1]), t[0], _ast_str(t[2]))
+
+
 def _gen_eval(rng, tier):
     n = rng.randint(1, 4)
     dims = [['x', n]]
     vs = []
+    coq_form = rng.random() < 0.75 or tier == 'search'
     for name in 'AB':
-        dtype = rng.choice(['f8', 'i8', 'f4'])
-        mask = [1 if rng.random() < 0.3 else 0 for _ in range(n)] if rng.random() < 0.4 else None
+        dtype = rng.choice(['f8', 'i8'] if coq_form else ['f8', 'i8', 'f4'])
+        mask = [1 if rng.random() < 0.3 else 0 for _ in range(n)] if rng.random() < 0.45 else None
         vs.append(dict(name=name, dtype=dtype, dims=['x'], data=[_enc(_val(rng, dtype, '/')) for _ in range(n)], mask=mask))
-    return dict(kind='eval', what='eval', dims=dims, vars=vs, expr=rng.choice(EXPRS))
+    coords = []
+    if rng.random() < 0.4:
+        vs.append(dict(name='x', dtype='f8', dims=['x'], data=[_enc(j * 1.5) for j in range(n)], mask=None))
+        coords = ['x']
+    copyall = rng.random() < 0.4
+    if not coq_form:
+        return dict(kind='eval-other', what='eval', dims=dims, vars=vs, coords=coords, copyall=copyall,
+                    expr=rng.choice(EXPRS), stmts=None)
+    names = ['A', 'B']
+    clean = ['A', 'B']
+    stmts = []
+    for _ in range(rng.choice([1, 1, 2, 3])):
+        tgt = rng.choice(['C', 'D', 'C', 'D', 'A', 'B'])
+        stmts.append([tgt, _gen_ast(rng, names, rng.choice([1, 2, 2, 3]), clean)])
+        if tgt not in names:
+            names = names + [tgt]
+        clean = [c for c in clean if c != tgt]
+    expr = '; '.join('%s = %s' % (t, _ast_str(a)) for t, a in stmts)
+    k = 'eval-%d' % len(stmts) + ('-ma' if any(v['mask'] is not None for v in vs) else '') + ('-copyall' if copyall else '')
+    return dict(kind=k, what='eval', dims=dims, vars=vs, coords=coords, copyall=copyall, expr=expr, stmts=stmts)
 
 
 def gen(rng, n, tier):
@@ -264,7 +333,8 @@ def impl(case):
             out = f.mask(coords=case['with_coords'], **kw)
             return dict(vars=_outvars(out))
         f = _mkfile(case['dims'], case['vars'])
-        out = f.eval(case['expr'])
+        f.setCoords(case.get('coords', []))
+        out = f.eval(case['expr'], copyall=case.get('copyall', False))
         return dict(vars=_outvars(out))
 
 
@@ -328,9 +398,36 @@ def _q(s):
     return '(Qmake %s %d)' % (C.zc(fr.numerator), fr.denominator)
 
 
+def _ast_term(t):
+    if t[0] == 'v':
+        return '(EVar %d%%nat)' % _vid(t[1])
+    if t[0] == 'c':
+        fr = Fraction(t[1])
+        return '(EConst (Qmake %s %d))' % (C.zc(fr.numerator), fr.denominator)
+    if t[0] == 'neg':
+        return '(ENeg %s)' % _ast_term(t[1])
+    return '(EBin %s %s %s)' % ({'+': 'OAdd', '-': 'OSub', '*': 'OMul', '/': 'ODiv'}[t[0]], _ast_term(t[1]), _ast_term(t[2]))
+
+
+def _eval_term(case, obs):
+    if not case.get('stmts'):
+        return None
+    vs = []
+    for v in case['vars']:
+        cells = '; '.join('(MC %s %s)' % (_rv(_dec(x)), C.cbool(v['mask'] is not None and v['mask'][i])) for i, x in enumerate(v['data']))
+        vs.append('(%d%%nat, EA %s [%s])' % (_vid(v['name']), C.cbool(v['mask'] is not None), cells))
+    if 'raises' in obs:
+        o = 'None'
+    else:
+        o = '(Some [%s])' % '; '.join('(%d%%nat, [%s])' % (_vid(v['name']), '; '.join(_ocell(c) for c in v['cells'])) for v in obs['vars'])
+    return '(CEval (EF [%s] %s) %s [%s] %s)' % (
+        '; '.join(vs), C.natlist([_vid(c) for c in case.get('coords', [])]), C.cbool(case.get('copyall', False)),
+        '; '.join('(%d%%nat, %s)' % (_vid(t), _ast_term(a)) for t, a in case['stmts']), o)
+
+
 def coq_term(case, obs):
     if case['what'] == 'eval':
-        return None
+        return _eval_term(case, obs)
     if case['what'] == 'bin':
         if 'raises' in obs:
             return None
@@ -473,6 +570,12 @@ def py_check(case, obs):
             assigned = [t.id for st in ast.parse(case['expr']).body if isinstance(st, ast.Assign) for t in st.targets]
             exp = [(k, _cells(np.ma.masked_array(env[k]) if isinstance(env[k], np.ma.MaskedArray) else np.asarray(env[k]))) for k in assigned]
             _cmp_vars(exp, obs, why, 'eval(%r)' % case['expr'])
+            keep = [v for v in case['vars'] if v['name'] not in assigned and
+                    (case.get('copyall') or v['name'] in case.get('coords', []))]
+            _cmp_vars([(v['name'], _cells(_arr(v, dl))) for v in keep], obs, why, 'eval untouched')
+            extra = set(v['name'] for v in obs['vars']) - set(assigned) - set(v['name'] for v in case['vars'])
+            if extra:
+                why.append('unexpected variables %s' % sorted(extra))
     return dict(s_ok=not why, region=region, why='; '.join(why)[:600])
 
 
@@ -521,8 +624,12 @@ LEVEL_TEXT = ('Theorems (Props/C06.v, all closed under the global context) over 
               'C06_mask_exact_where, C06_mask_keeps_unmasked, C06_mask_monotone, C06_mask_skips_coords) and whole-call equality for every '
               'input incl. dims= as a list (C06_mask_correct, full strength). No _partial/_refuted theorem is left: the four defects '
               'found (masked operand unmasked, x/0 not masked on masked-typed variables, dims list ignored, integer values= unmasking) are '
-              'repaired (known_findings fixed:) and their inputs are corpus cases. eval() is compared with numpy by a Python oracle only '
-              '(no theorem). Tie H: library vs model on every generated bin/mask case.')
+              'repaired (known_findings fixed:) and their inputs are corpus cases. eval(): assignment statements over names, constants, unary '
+              'minus and + - * / create variables equal to the sequential cellwise evaluation on the file\'s arrays, other variables are '
+              'identical copies of the base file (C06_eval_creates_expr, C06_eval_single, C06_eval_copyall_untouched, '
+              'C06_eval_binop_cellwise, C06_eval_cell_mask; Model/EvalExpr.v); other expression forms: Python oracle only. '
+              'Tie H: library vs model on every generated bin/mask case and on the modelled eval cases.')
 LEVEL_NOTE = ('Trusted: Coq kernel + vm_compute; the harness; numpy elementwise results are model inputs (the model decides mask placement); '
-              'numpy.ma.masked_* semantics as modelled. eval(): oracle only.')
+              'numpy.ma.masked_* semantics as modelled. eval(): IEEE extended-real arithmetic with exact finite part, no signed zero (divisors '
+              'are generated so that their zeros are +0.0); the template variable\'s dims/attrs on created variables are not modelled.')
 TECHNIQUE = 'Coq proof (elementwise refinement on a boolean domain, list induction) + vm_compute refutation witnesses + differential correspondence'
